@@ -111,6 +111,16 @@ fn main() {
             let chk = checks::by_id(&id).unwrap_or_else(|| usage());
             check::scan(chk.as_ref(), DEFAULT_SEED, n, Tier::Quick);
         }
+        "case" => {
+            // dst case <Cxx> <index> [seed]: print the explicit case of one run as a replay document
+            let id = args.get(2).cloned().unwrap_or_else(|| usage());
+            let idx: u64 = args.get(3).and_then(|s| s.parse().ok()).unwrap_or(0);
+            let seed: u64 = args.get(4).and_then(|s| s.parse().ok()).unwrap_or(DEFAULT_SEED);
+            let chk = checks::by_id(&id).unwrap_or_else(|| usage());
+            let rs = check::run_seed(seed, chk.id(), idx);
+            let case = chk.generate(rs, idx, Tier::Quick);
+            println!("{}", serde_json::json!({"property": id, "signature": "", "case": case.to_json()}));
+        }
         "digest" => {
             // dst digest <Cxx> <runs> <jobs> <seed>
             let id = args.get(2).cloned().unwrap_or_else(|| usage());
